@@ -1,6 +1,7 @@
-//! Property C11 — correspondence / expectation run (see DESIGN.md §5, C11).
+//! Property C11 — prover/verifier transcripts stay in lock-step; proofs are bound to them.
 use crate::Ctx;
 
 pub fn run(ctx: &mut Ctx) {
-    let _ = ctx;
+    crate::generic::c11_all(ctx);
+    crate::props_marlin::c11(ctx);
 }
